@@ -248,6 +248,29 @@ def rule_shared_formulas(ctx):
                 pexpr['n'] = (x.value, x.lineno)
             if t == 'M' and 'T' in src and 'n' in src:
                 pexpr['M_from_T'] = (x.value, x.lineno)
+    # Python locals that merely name a sub-expression (mu = primary.m + self.m) are inlined: assigned exactly once, from an
+    # arithmetic expression
+    stores = {}
+    for x in ast.walk(init):
+        if isinstance(x, ast.Assign) and len(x.targets) == 1 and isinstance(x.targets[0], ast.Name):
+            stores.setdefault(x.targets[0].id, []).append(x.value)
+        elif isinstance(x, (ast.AugAssign, ast.For)) and isinstance(getattr(x, 'target', None), ast.Name):
+            stores.setdefault(x.target.id, []).append(None)
+    params_ = {a_.arg for a_ in init.args.args + init.args.kwonlyargs}
+    lets_ = {k_: v_[0] for k_, v_ in stores.items() if len(v_) == 1 and v_[0] is not None and k_ not in params_ and k_ not in PNAMES
+             and all(isinstance(y, (ast.BinOp, ast.Name, ast.Attribute, ast.Constant, ast.operator, ast.expr_context, ast.UnaryOp, ast.unaryop)) for y in ast.walk(v_[0]))}
+
+    class _Inline(ast.NodeTransformer):
+        def visit_Name(self, node):
+            if isinstance(node.ctx, ast.Load) and node.id in lets_:
+                return self.visit(ast.parse(ast.unparse(lets_[node.id]), mode='eval').body)
+            return node
+    for x in ast.walk(init):
+        if isinstance(x, ast.Assign) and isinstance(x.targets[0], ast.Name) and x.targets[0].id == 'n' and 'n' not in pexpr:
+            if any(isinstance(y, ast.Name) and y.id == 'a' for y in ast.walk(x.value)):
+                pexpr['n'] = (x.value, x.lineno)
+    for key in list(pexpr):
+        pexpr[key] = (_Inline().visit(ast.parse(ast.unparse(pexpr[key][0]), mode='eval').body), pexpr[key][1])
     for key in ('a_from_P', 'n', 'M_from_T'):
         anchor(key in cexpr and key in pexpr, 'inline conversion %s on both sides' % key)
         n += 1
